@@ -306,6 +306,14 @@ fn op_poly<F: FftField + PrimeField>(t: &mut Tape<'_>, max_deg: usize, what: &st
             let x = s.field::<F>();
             out = ser(&sp.evaluate(&x));
             out.extend(ser(&(&sp * s.field::<F>())));
+            // sparse polynomial over a (coset) domain that is smaller than its degree: x^n - 1, x^(4n) + ..., random terms
+            let n = 1usize << t.below(8);
+            let d = GeneralEvaluationDomain::<F>::new(n).unwrap();
+            let d = if t.chance(3, 4) { d.get_coset(F::GENERATOR).unwrap() } else { d };
+            let extra = SparsePolynomial::<F>::from_coefficients_vec(vec![(0, -F::one()), (n * (1 + t.below(5) as usize), F::one()), (n + 3, s.field::<F>() + F::one())].into_iter().filter(|(_, c)| !c.is_zero()).collect());
+            out.extend(ser(&sp.evaluate_over_domain_by_ref(d).evals));
+            out.extend(ser(&extra.clone().evaluate_over_domain(d).evals));
+            out.extend(ser(&extra.evaluate_over_domain_by_ref(d).evals));
         },
         6 => {
             let k = s.field::<F>();
